@@ -479,3 +479,49 @@ func VerifC03EagerIndependence() {
 	vquiesce()
 	vassert(rerr == nil && len(out) == 2, "the run completes: a successor of one lane never keeps the other lane from advancing")
 }
+
+// Batch execution (Pregel / all-predecessor): the caller's context is cancelled by one of two parallel nodes of a step,
+// at any point of any schedule. The run may fail with the cancellation, but it never returns while a node execution it
+// started is still running: every started execution has been collected when Invoke returns.
+func VerifC03CancelDuringStep() {
+	vcfg("preempt", 2)
+	ctx, cancel := context.WithCancel(context.Background())
+	who := []string{"a", "b"}[vchoose("who", 2)]
+	running := 0
+	started := 0
+	body := func(key string) *Lambda {
+		return InvokableLambda(func(ctx context.Context, in map[string]any) (map[string]any, error) {
+			vMu.Lock()
+			running++
+			started++
+			vMu.Unlock()
+			if key == who {
+				cancel()
+			}
+			vyield()
+			vMu.Lock()
+			running--
+			vMu.Unlock()
+			return map[string]any{key: 1}, nil
+		})
+	}
+	g := NewGraph[map[string]any, map[string]any]()
+	_ = g.AddLambdaNode("a", body("a"))
+	_ = g.AddLambdaNode("b", body("b"))
+	_ = g.AddEdge(START, "a")
+	_ = g.AddEdge(START, "b")
+	_ = g.AddEdge("a", END)
+	_ = g.AddEdge("b", END)
+	var opts []GraphCompileOption
+	if vchoose("dag", 2) == 1 {
+		opts = append(opts, WithNodeTriggerMode(AllPredecessor))
+	}
+	r, err := g.Compile(context.Background(), opts...)
+	vassert(err == nil, "graph compiles")
+	_, _ = r.Invoke(ctx, map[string]any{"in": 1})
+	vMu.Lock()
+	still := running
+	vMu.Unlock()
+	vassert(still == 0, "no node execution the run started is still running when the run returns (cancelled or not)")
+	vquiesce()
+}
